@@ -290,7 +290,7 @@ func goVal(v reflect.Value) string {
 
 var validBits = []string{"\"", "\\", "\n", "\r", "\t", "\b", "\f", "\x00", "\x01", "\x1f", "\x7f", "<", ">", "&", "'", "/", " ",
 	"\u2028", "\u2029", "\ufffd", "\u00e9", "\u4e16", "\U0001F600", "\u0080", "\u07ff", "\u0800", "\uffff", "\ufeff", "\U00010000",
-	"\U0010ffff", "\ud7ff", "\ue000", "</script>", "\\u0041", "\\\"", "\\n", "{\"a\":1}", "\u202e", "\u0085", ":", ",", "}", "]", "null"}
+	"\U0010ffff", "\ud7ff", "\ue000", "</script>", "\\u0041", "\\u0026", "\\u003c", "\\u003e", "\\u2028", "\\\\u0026", "\\\"", "\\n", "{\"a\":1}", "\u202e", "\u0085", ":", ",", "}", "]", "null"}
 
 var invalidBits = []string{"\xff", "\xfe", "\xc0\x80", "\xc1\xbf", "\xed\xa0\x80", "\xed\xbf\xbf", "\xe2\x80", "\xf4\x90\x80\x80",
 	"\x80", "\xbf", "\xc2", "\xf0\x9f\x98", "\xe0\x9f\xbf", "\xf0\x8f\xbf\xbf", "\xf5\x80\x80\x80", "\xe2\x28\xa1", "\xc3\x28"}
